@@ -872,7 +872,11 @@ func runH2History(t *testing.T, vt *vhT, seed int64, nOps int) {
 		if rng.Intn(3) == 0 {
 			vetoed = append(vetoed, net.ParseIP("10.0.0.8"))
 		}
-		l0 := &h2Listener{ip: net.ParseIP("10.0.0.1").To4(), vetoed: vetoed}
+		var vetoedFor [][2]net.IP
+		if rng.Intn(2) == 0 { // the handler's verdict may depend on who asks
+			vetoedFor = [][2]net.IP{{net.ParseIP("10.0.0.3"), net.ParseIP("10.0.0.9")}, {net.ParseIP("fd00::2"), net.ParseIP("fd00::8")}}
+		}
+		l0 := &h2Listener{ip: net.ParseIP("10.0.0.1").To4(), vetoed: vetoed, vetoedFor: vetoedFor}
 		switch rng.Intn(6) {
 		case 0:
 			l0.ip = net.ParseIP("fd00::1")
@@ -886,7 +890,7 @@ func runH2History(t *testing.T, vt *vhT, seed int64, nOps int) {
 		lis := []*h2Listener{l0}
 		h.tcpMode = rng.Intn(4) == 0 || os.Getenv("VERIF_H2_MODE") == "tcp"
 		if rng.Intn(2) == 0 || h.tcpMode {
-			lis = append(lis, &h2Listener{stream: true, ip: net.ParseIP("10.0.0.1").To4(), vetoed: vetoed[:1]})
+			lis = append(lis, &h2Listener{stream: true, ip: net.ParseIP("10.0.0.1").To4(), vetoed: vetoed[:1], vetoedFor: vetoedFor})
 		}
 		w := newH2World(vt, cfg, lis, withAuth, withQuota)
 		h.w = w
@@ -920,7 +924,15 @@ func runH2History(t *testing.T, vt *vhT, seed int64, nOps int) {
 			if l.ip.To4() == nil {
 				fam = 2
 			}
-			vt.Op("lis %d %d %d %s", b(l.stream), fam, b(l.unspec), strings.Join(vs, ","))
+			vf := "-"
+			if len(l.vetoedFor) > 0 {
+				var ps []string
+				for _, v := range l.vetoedFor {
+					ps = append(ps, canonIPStr(v[0])+">"+canonIPStr(v[1]))
+				}
+				vf = strings.Join(ps, ",")
+			}
+			vt.Op("lis %d %d %d %s %s", b(l.stream), fam, b(l.unspec), strings.Join(vs, ","), vf)
 			vt.Obs("ok")
 		}
 		h.cpool = []*net.UDPAddr{{IP: net.ParseIP("10.0.0.2").To4(), Port: 4000}, {IP: net.ParseIP("10.0.0.2").To4(), Port: 4001},
